@@ -533,6 +533,14 @@ func (fr *Frame) branch(blk *ssa.BasicBlock, x *ssa.If, stop *ssa.BasicBlock) (e
 			}
 		}
 	}
+	if join && it.Cfg.LoopUnroll > 0 && info.inLoop[blk] && !fr.inLoop && it.oracle != nil {
+		// loop-unrolling mode: every data-dependent test inside the unrolled loop is a path split (a retry loop written
+		// as a state machine decides "draw again" with an ordinary if, not with the loop's exit test); the number of
+		// iterations is bounded by the cap on entropy reads
+		if _, isPred := cond.(PredV); isPred {
+			join = false
+		}
+	}
 	if join && it.Cfg.LoopUnroll > 0 && fr.inLoop && !info.inLoop[blk] {
 		// loop-unrolling mode: a data-dependent test in a helper called from the unrolled loop (a read-and-panic
 		// wrapper) is enumerated like the loop's own tests, so that its outcome becomes a path assumption
@@ -1014,6 +1022,18 @@ func (it *Interp) assumeAtom(a *PAtom, v bool) {
 					val = new(big.Int).Set(k)
 				}
 				it.bind[at] = TConst(val)
+				// a string of fixed length decodes, if it is valid hexadecimal, to half as many bytes (odd: never valid)
+				if n := BaseSym(at).Name; val.Sign() > 0 && strings.HasPrefix(n, "len(") && !strings.HasPrefix(n, "len(unhex(") {
+					x := n[4 : len(n)-1]
+					if hv := SymBool("hexvalid(" + x + ")").SinglePred(); hv != nil && val.Bit(0) == 1 {
+						it.assume[hv] = false
+					}
+					if ua := SymInt("len(unhex("+x+"))", bigZero, big.NewInt(math.MaxInt64)).SingleAtom(); ua != nil && val.Bit(0) == 0 {
+						if _, bound := it.bind[ua]; !bound {
+							it.bind[ua] = TConst(new(big.Int).Rsh(val, 1))
+						}
+					}
+				}
 				// the empty string is valid hexadecimal for the empty byte string
 				if n := at.Name; val.Sign() == 0 && strings.HasPrefix(n, "len(") && !strings.HasPrefix(n, "len(unhex(") {
 					x := n[4 : len(n)-1]
